@@ -340,7 +340,7 @@ def _paths(wd, shard, ctx, res, only):
     # ---- DM-time transform rows
     for steps in ((1, 3) if long else (1, 2, 3, 4, 5)):
         for valid in (False, True):
-            for ref in ("ch1", 1300.0):
+            for ref in ("ch1", 1300.0, 1650.0):  # the numeric ones lie below / above every band: all delays of one sign and none of them zero
                 name = "dmt_valid" if valid else "dmt"
                 case = ev(name, [steps, ref])
                 if not case:
